@@ -69,6 +69,12 @@ def rules(t):
         a = br["cond"][2]
         if len(a) == 2 and "public_addresses" in fmt(a[0]) and "server_addresses" in fmt(a[1]) and t.mentions_call(a[1], r"PrivateConnectToken::decode$"):
             hits.append(br["t_edge"]); r.site(Site(h, br["bb"], 0, h.blocks[br["bb"]]["term"]), "public_addresses.contains(token address)")
+    # the same membership test written as a search: `addresses.iter().flatten().find(|a| public.contains(a)).ok_or(NotInHostList)?` / `position(..)`
+    for c in t.calls(r"(Iterator|iter::\w+|Flatten\S*|Iter\S*)\S*::(find|position|find_map)$|::(find|position|find_map)$", h):
+        o = t.arg(c, 0)
+        if not (t.mentions_call(o, r"PrivateConnectToken::decode$") and "server_addresses" in fmt(o)): continue
+        e = t.result_edges(h, c)
+        if e: hits.append(e[0]); r.site(c, "find(..) over token addresses")
     s0 = Site(h, sec[0]["bb"], 0, h.blocks[sec[0]["bb"]]["term"]) if sec else None
     if not sec: r.bad("secure", None, "no branch on self.secure")
     elif not hits: r.bad("src", s0, "no test of the token's server addresses against self.public_addresses")
